@@ -139,7 +139,9 @@ def gen_universe(rng, draft="2020", max_docs=3):
                             inner.set("$anchor", a2)
                         else:
                             inner.set("$id", "#" + a2)
-                    t = Obj([("$id", idv), (defs_kw, Obj([("in", inner)])), ("const", m)] + ([("$anchor", anchor)] if anchor and draft == "2020" else []))
+                    # a reference to "#" from INSIDE the embedded resource designates that resource's root, not the document's
+                    t = Obj([("$id", idv), (defs_kw, Obj([("in", inner), ("selfref", Obj([("$ref", rng.choice(["#", "#", "#/" + defs_kw + "/in"]))]))])), ("const", m)] +
+                            ([("$anchor", anchor)] if anchor and draft == "2020" else []))
                     # anchors declared on the embedded resource's own root belong to the embedded resource
                     targets.append(Target(m, di, [j], anchor if draft == "2020" else None, "", True, True))
                     targets.append(Target(m2, di, [j], a2, "/" + defs_kw + "/in", False, True))
